@@ -19,18 +19,27 @@ In both modes the compressor sees the logical segment `dictionary ++ source`, in
 namespace LZ4V.Model.FastX
 open LZ4V.Model.Fast LZ4V.Model.FastR
 
+/-- an attached dictionary stream (`dictCtx`): what `LZ4_loadDict(Slow)` left in ANOTHER `LZ4_stream_t`; never written by the working stream -/
+structure DCtx where
+  tbl : Array Nat
+  currentOffset : Nat
+  dict : Array UInt8
+  dictAddr : Nat
+
 structure XState where
   tbl : Array Nat := Array.replicate LZ4V.Gen.LZ4_HASH_SIZE_U32 0
   currentOffset : Nat := 0
   dict : Array UInt8 := #[]       -- the bytes of the dictionary (`dictSize = dict.size`)
   dictAddr : Nat := 0             -- `dictionary` (address of its first byte; 0 = NULL)
   used : Bool := false            -- `tableType != clearedTable`
+  dctx : Option DCtx := none      -- `dictCtx` (`LZ4_attach_dictionary`)
 
 inductive Op
   | compress (addr : Nat) (data : Array UInt8) (acceleration : Int) (cap : Nat)
   | saveDict (addr : Nat) (k : Nat)
   | loadDict (addr : Nat) (d : Array UInt8) (slow : Bool)
   | reset
+  | attach (addr : Nat) (d : Array UInt8) (slow : Bool)    -- `LZ4_resetStream_fast(stream)`, `LZ4_loadDict(Slow)(dictStream, (char*)addr, |d|)`, `LZ4_attach_dictionary(stream, dictStream)`
 
 def lastN (a : Array UInt8) (k : Nat) : Array UInt8 := a.extract (a.size - k) a.size
 
@@ -50,7 +59,7 @@ def clampAccel (acceleration : Int) : Nat :=
 def adjust (S0 : XState) (addr n : Nat) : XState × Bool :=
   let dictEnd0 : Option Nat := if S0.dict.size ≠ 0 then some (S0.dictAddr + S0.dict.size) else none
   let S1 := renorm S0 n
-  let tiny := decide (S1.dict.size < 4) && decide (dictEnd0 ≠ some addr) && decide (n > 0)
+  let tiny := decide (S1.dict.size < 4) && decide (dictEnd0 ≠ some addr) && decide (n > 0) && S1.dctx.isNone
   let S2 : XState := if tiny then { S1 with dict := #[], dictAddr := addr } else S1
   let dictEnd : Option Nat := if tiny then some addr else dictEnd0
   let srcEnd := addr + n
@@ -92,10 +101,31 @@ def core (hashOf : Array UInt8 → Bool → Nat → Nat) (S : XState) (contig : 
        if over P (st.op + lastRun + 1 + (lastRun + 255 - 15) / 255) then none
        else some (LZ4V.Spec.Block.serialize (l.map (toSeq seg)) (seg.extract st.anchor seg.size).toList))
 
+/-- the table the `usingDictCtx` search sees: a slot of the working table that holds nothing of the current block (`matchIndex < startIndex`) is looked
+    up in the dictionary stream's table instead, its index shifted by `dictDelta = startIndex - dictCtx->currentOffset` -/
+def mergedTbl (own dt : Array Nat) (startIndex delta : Nat) : Array Nat :=
+  (Array.range own.size).map (fun h => if own.getD h 0 < startIndex then dt.getD h 0 + delta else own.getD h 0)
+
+/-- … and what the working table holds afterwards: its own insertions of this block, everything else as it was -/
+def restoreTbl (own0 final : Array Nat) (startIndex : Nat) : Array Nat :=
+  (Array.range own0.size).map (fun h => if final.getD h 0 < startIndex then own0.getD h 0 else final.getD h 0)
+
 /-- `LZ4_compress_fast_continue(stream, (char*)addr, dst, n, cap, acceleration)` -/
 def compress (hashOf : Array UInt8 → Bool → Nat → Nat) (S : XState) (addr : Nat) (data : Array UInt8) (acceleration : Int) (cap : Nat) : XState × Option (List UInt8) :=
   let a := adjust S addr data.size
-  core hashOf a.1 a.2 addr data acceleration cap
+  let T := a.1
+  match (if a.2 then none else T.dctx) with
+  | none => core hashOf T a.2 addr data acceleration cap
+  | some D =>
+    if data.size = 0 then core hashOf T false addr data acceleration cap          -- returns before `dictCtx` is looked at; it stays attached
+    else if data.size > LZ4V.Gen.KB4 then
+      -- `LZ4_memcpy(streamPtr, streamPtr->dictCtx, sizeof(*streamPtr))` then `usingExtDict, noDictIssue`
+      core hashOf { tbl := D.tbl, currentOffset := D.currentOffset, dict := D.dict, dictAddr := D.dictAddr, used := true, dctx := none } false addr data acceleration cap
+    else if T.currentOffset < D.currentOffset then ({ T with dctx := none }, none)                          -- `dictDelta` would wrap: not modelled (never happens with a loaded dictionary stream)
+    else
+      -- `usingDictCtx, noDictIssue` : two tables
+      let r := core hashOf { T with tbl := mergedTbl T.tbl D.tbl T.currentOffset (T.currentOffset - D.currentOffset), dict := D.dict, dictAddr := D.dictAddr } false addr data acceleration cap
+      ({ r.1 with tbl := restoreTbl T.tbl r.1.tbl T.currentOffset, dctx := none }, r.2)
 
 /-- `LZ4_saveDict(stream, (char*)addr, k)` : new state and the return value -/
 def saveDict (S : XState) (addr k : Nat) : XState × Nat :=
@@ -128,7 +158,7 @@ def loadDict (hashOf : Array UInt8 → Bool → Nat → Nat) (addr : Nat) (d : A
 /-- `LZ4_resetStream_fast` -/
 def reset (S : XState) : XState :=
   let S1 : XState := if S.used ∧ S.currentOffset > LZ4V.Gen.GB1 then { S with tbl := Array.replicate LZ4V.Gen.LZ4_HASH_SIZE_U32 0, currentOffset := 0, used := false } else S
-  { S1 with currentOffset := if S1.currentOffset ≠ 0 then S1.currentOffset + LZ4V.Gen.KB64 else 0, dict := #[], dictAddr := 0 }
+  { S1 with currentOffset := if S1.currentOffset ≠ 0 then S1.currentOffset + LZ4V.Gen.KB64 else 0, dict := #[], dictAddr := 0, dctx := none }
 
 /-- what one operation returns -/
 inductive Out
@@ -142,6 +172,11 @@ def step (hashOf : Array UInt8 → Bool → Nat → Nat) (S : XState) : Op → X
   | .saveDict addr k => let r := saveDict S addr k; (r.1, .size r.2)
   | .loadDict addr d slow => let r := loadDict hashOf addr d slow; (r.1, .size r.2)
   | .reset => (reset S, .unit)
+  | .attach addr d slow =>
+    let D := (loadDict hashOf addr d slow).1
+    let R := reset S
+    ({ R with currentOffset := if R.currentOffset = 0 then LZ4V.Gen.KB64 else R.currentOffset,
+              dctx := if D.dict.size = 0 then none else some { tbl := D.tbl, currentOffset := D.currentOffset, dict := D.dict, dictAddr := D.dictAddr } }, .unit)
 
 /-- a life of the stream: the outputs, up to and including the first compression that fails (after which the stream may only be reset: the
     model stops there) -/
